@@ -808,6 +808,8 @@ class SetAlg:
                 return self.cond(inner)
             if inner[0] == "const":
                 return bool(inner[1])
+            if inner[0] == "meth" and inner[2] in ("startswith", "endswith", "isdigit", "isalpha", "isidentifier", "isupper", "islower", "isnumeric"):
+                return self.cond(inner)  # a str predicate is its own truth value (`a and s.startswith(p)` vs `if a: return s.startswith(p)`)
             if inner[0] == "ite":
                 ci = self.cond(inner[1])
                 return f_or(f_and(ci, self.cond(("truth", inner[2]))), f_and(f_not(ci), self.cond(("truth", inner[3]))))
